@@ -20,7 +20,14 @@ import (
 var (
 	dictOnce sync.Once
 	dict     []string
+	dictInts []uint64
 )
+
+// CodeInts returns the large integer constants (>= 2^31) of the library's sources: multipliers, masks, seeds.
+func CodeInts() []uint64 {
+	CodeLiterals()
+	return dictInts
+}
 
 // CodeLiterals returns the dictionary (possibly empty when the sources cannot be read).
 func CodeLiterals() []string {
@@ -30,6 +37,7 @@ func CodeLiterals() []string {
 			dir = "/repo"
 		}
 		seen := map[string]bool{}
+		seenInt := map[uint64]bool{}
 		for _, sub := range []string{"", "types", "uuid"} {
 			files, _ := filepath.Glob(filepath.Join(dir, sub, "*.go"))
 			for _, f := range files {
@@ -48,6 +56,12 @@ func CodeLiterals() []string {
 					if tok == token.EOF {
 						break
 					}
+					if tok == token.INT {
+						if v, err := strconv.ParseUint(strings.ReplaceAll(lit, "_", ""), 0, 64); err == nil && v >= 1<<31 {
+							seenInt[v] = true
+						}
+						continue
+					}
 					if tok != token.STRING {
 						continue
 					}
@@ -63,6 +77,10 @@ func CodeLiterals() []string {
 			dict = append(dict, v)
 		}
 		sort.Strings(dict)
+		for v := range seenInt {
+			dictInts = append(dictInts, v)
+		}
+		sort.Slice(dictInts, func(i, j int) bool { return dictInts[i] < dictInts[j] })
 	})
 	return dict
 }
